@@ -73,6 +73,13 @@ func (pnf *PageNumberFinder) FindPagination(root *html.Node, pageURL *nurl.URL) 
 	url.RawPath = url.Path
 	strPageURL := stringutil.UnescapedString(&url)
 
+	// The detector lists the current page itself with its escaped spelling, the
+	// outlinks are listed unescaped; both are the page we are on.
+	escapedPageURL := url.String()
+	isPageURL := func(pageInfoURL string) bool {
+		return pageInfoURL == strPageURL || pageInfoURL == escapedPageURL
+	}
+
 	pnf.baseURL = pageURL
 	paramInfo := pnf.FindOutlink(root, &url)
 	if paramInfo.Type != info.PageNumber {
@@ -95,7 +102,7 @@ func (pnf *PageNumberFinder) FindPagination(root *html.Node, pageURL *nurl.URL) 
 	if pagination.NextPage == "" && nPageInfo > 0 {
 		for i := nPageInfo - 1; i >= 0; i-- {
 			currentInfo := paramInfo.AllPageInfo[i]
-			if currentInfo.URL != strPageURL {
+			if !isPageURL(currentInfo.URL) {
 				pagination.PrevPage = currentInfo.URL
 				break
 			}
@@ -116,7 +123,7 @@ func (pnf *PageNumberFinder) FindPagination(root *html.Node, pageURL *nurl.URL) 
 
 		for i := nextPageIdx - 1; i >= 0; i-- {
 			currentURL := paramInfo.AllPageInfo[i].URL
-			if currentURL == "" || currentURL != strPageURL {
+			if currentURL == "" || !isPageURL(currentURL) {
 				pagination.PrevPage = currentURL
 				break
 			}
